@@ -951,6 +951,7 @@ _INT_MAKERS = {
     ("frameAddBeam", "corner_1"): lambda v: [call("frameAddBeam", [v, w], stream="guard") for w in range(-1, 10)],
     ("frameAddBeam", "corner_2"): lambda v: [call("frameAddBeam", [w, v], stream="guard") for w in range(-1, 10)],
     ("opUnchop", "axis"): lambda v: [call("opUnchop", [v], stream="guard"), call("opChop", [v], stream="guard")],
+    ("opChop", "axis"): lambda v: [call("opChop", [v], stream="guard"), call("opUnchop", [v], stream="guard")],
     ("stackSlice", "axis"): lambda v: [call("stackSlice", [v, 0, 2, 3, 4], stream="guard")],
     ("stackSlice", "index"): lambda v: [call("stackSlice", [a, v, 2, 3, 4], stream="guard") for a in (0, 1, 2)],
     ("polarCartesian", "direction"): lambda v: [call("polarArgs", [v], ["z"], stream="guard")],
@@ -1044,10 +1045,10 @@ def guard_cases() -> List[dict]:
             continue  # the translator's failure is reported by the table generation
         conds = []
         for st in stmts:
-            if st[0] in ("raise", "ret"):
+            if st[0] in ("raise", "ret", "implicit"):
                 conds.append(st[-1])
             elif st[0] == "each":
-                conds += [x[-1] for x in st[3] if x[0] in ("raise", "ret")]
+                conds += [x[-1] for x in st[3] if x[0] in ("raise", "ret", "implicit")]
         for cond in conds:
             for cmp_ in _comparisons(cond):
                 if cmp_[0] == "iin":
@@ -1436,7 +1437,7 @@ class C20(core.Check):
         "table (T_C20_guards_table*); evaluating the regenerated guards on the arguments of a call is proved to give the "
         "outcome of the model's `run`, class included, for every entry point (T_C20_guards_translated_*; "
         "none partial). Still checked, not proved: the rejections that "
-        "come from implicit checks below / between the guards (dict and list look-ups, numpy shape and division, NaN "
+        "come from implicit checks below / between the guards that are not subscripts on a literal list / dict of the class (those are translated: T_C20_guards_implicit_*) — module-level and nested look-ups, numpy shape and division, NaN "
         "refused by scipy — spelled out in each theorem as the model's own checks), the meaning of the named atoms "
         "(`self.outer_radius`, `self.is_assembled`, `isinstance(…, Disk)`, `len(np.shape(points))`) and python's "
         "evaluation of the translated syntax: probe table + differential correspondence (the regenerated guards are "
@@ -1509,7 +1510,7 @@ class C20(core.Check):
         rat = lambda x: core.rat(Fr(x))
         if case["kind"] == "call":
             args = f"{case['name']} {_lean_list([rat(x) for x in case['r']])} {_lean_list(case['s'])}"
-            return ["c20.call " + args] + (["c20.guards " + args] if case["name"] != "opChop" else [])
+            return ["c20.call " + args] + ["c20.guards " + args]
         if case["kind"] == "grid":
             v = lambda p: ",".join(rat(c) for c in p)
             pts = ";".join(v(p) for p in case["points"])
